@@ -557,14 +557,20 @@ def match_pipeline(obs, P, triple, exp, chain, weakc=None):
             bound = b
         # plumbing
         if first:
-            if r["fd0"] != obs["stdin_id"]:
+            # PERMISSIVE: what a stage that is given a file name has as standard input is not documented
+            if exp["name"] == "-" and r["fd0"] != obs["stdin_id"]:
                 errs.append("%s: standard input is %s, expected the driver's own" % (w, r["fd0"]))
+            elif str(r["fd0"]).startswith("pipe:"):
+                errs.append("%s: first stage reads from a pipe %s" % (w, r["fd0"]))
         else:
             if not r["fd0"].startswith("pipe:") or r["fd0"] != chain[k - 1]["fd1"]:
                 errs.append("%s: standard input %s is not the pipe written by %s (%s)" % (w, r["fd0"], chain[k - 1]["tool"], chain[k - 1]["fd1"]))
         if lastst:
-            if r["fd1"] != obs["stdout_id"]:
+            # PERMISSIVE: likewise the standard output of a stage that writes to its -o file
+            if exp["out"] is None and r["fd1"] != obs["stdout_id"]:
                 errs.append("%s: standard output is %s, expected the driver's own" % (w, r["fd1"]))
+            elif str(r["fd1"]).startswith("pipe:"):
+                errs.append("%s: last stage writes to a pipe %s" % (w, r["fd1"]))
         else:
             if not r["fd1"].startswith("pipe:"):
                 errs.append("%s: standard output %s is not a pipe" % (w, r["fd1"]))
@@ -611,8 +617,6 @@ def compare(obs, P, triple, args, variants=(), mode_override=None, weakc=None):
             errs.append("usage error expected (%s): but tools were run: %s" % (E["why"], [r["argv"] for r in recs]))
         if obs["after"] != obs["before"]:
             errs.append("usage error expected (%s): but files changed" % E["why"])
-        if obs["stdout"]:
-            errs.append("usage error expected (%s): output on stdout %r" % (E["why"], obs["stdout"][:100]))
         return errs
     if obs["rc"] != 0:
         errs.append("exit status %s, expected 0 (all tools succeed); stderr %r" % (obs["rc"], obs["stderr"][:300]))
@@ -683,8 +687,8 @@ def compare(obs, P, triple, args, variants=(), mode_override=None, weakc=None):
             errs.append("linker command %r, expected %r" % (r["argv"][0], TOOL["ld"]))
         e, _ = match_args("link step", tail, groups)
         errs.extend(e)
-        if r["fd0"] != obs["stdin_id"] or r["fd1"] != obs["stdout_id"]:
-            errs.append("link step: stdin/stdout %s %s are not the driver's own" % (r["fd0"], r["fd1"]))
+        if str(r["fd0"]).startswith("pipe:") or str(r["fd1"]).startswith("pipe:"):
+            errs.append("link step: connected to a pipe: stdin %s stdout %s" % (r["fd0"], r["fd1"]))
         if any(str(v).startswith("pipe:") for v in r.get("xfds", {}).values()):
             errs.append("link step: inherited pipe ends: %s" % r["xfds"])
     # files and standard output
@@ -889,7 +893,8 @@ def check(case, ctx):
     if len({x["type"] for x in files}) >= 2 or len(tools) >= 2:
         res.keys.append(sha([triple, args]))
     res.sample = {"triple": triple, "argv": args, "status": obs["rc"],
-                  "tools_run": [[os.path.basename(r["argv"][0])] + r["argv"][1:] for r in obs["recs"] if r.get("argv")][:12]}
+                  "tools_run": [[os.path.basename(r["argv"][0])] + [TMP_RE.sub("/tmp/cproc-<tmp>", a) for a in r["argv"][1:]]
+                                for r in obs["recs"] if r.get("argv")][:12]}
     f = judge(obs, P, triple, args)
     if f is not None and "+" in f["sig"]:
         # several defect models at once: counted under each recorded finding when all of them are
